@@ -984,6 +984,10 @@ def oracle_cxlrej(ctx, failures, stats, n):
             tags = [int(x) for x in m.tags]
             if tags != [37, 11, 41, 39, 434]:
                 failures.append({"signature": "C20-cxlrej-tags", "what": f"tags {tags}", "input": c, "observed": out})
+            d = dict((int(t), x) for t, x in m.tags.items())
+            if d.get(434) != ("1" if mt == "F" else "2") or d.get(11) != v["clord"] or d.get(41) != v["orig"]:
+                failures.append({"signature": "C20-cxlrej-inconsistent", "what": "CxlRejResponseTo / ClOrdID / OrigClOrdID do not "
+                                 f"name the request: {d}", "input": c, "observed": out})
             if not validates(m):
                 failures.append({"signature": "C20-cxlrej-invalid", "what": "cancel reject refused by FIXSchema(FIX44.xml)", "input": c,
                                  "observed": out})
@@ -1022,7 +1026,9 @@ def replay(ctx, rp):
     elif kind == "cxlrej":
         out, m = impl_cxlrej(inp)
         print("replay:", out)
-        return m is None or " # raised" in out or not validates(m)
+        d = dict((int(t), x) for t, x in m.tags.items()) if m is not None else {}
+        bad_echo = m is not None and (d.get(434) != ("1" if inp["req"][0] == "F" else "2"))
+        return m is None or " # raised" in out or not validates(m) or bad_echo
     elif kind == "msg":
         out, m = impl_msg(tuple(inp["spec"]))
         print("replay:", out)
